@@ -174,7 +174,7 @@ walk:
 
 func init() {
 	checks["C21"] = eng.Check{
-		Rule:        "code images of 1..2 blocks (at 0x1000 and 0x2000 / directly adjacent / 0x1000 and 2^64-16 / 0x1000 and a block ending exactly at 2^64), each block every sequence of <=3 words from {addi, sw, beq, jal, lr.w(A only), auipc, jalr (linking), 00000000, ffffffff} followed by 0..3 extra bytes (second block 1 word in quick), in both input orders, rv64ima and rv32i: parser.Parse must fail iff the reference walk meets an undecodable or truncated word, else yield the exact tiling with the image bytes, the front end's text/type and effects of equal kinds/keys/widths that are equivalent to the front end's lifting under 8 pre-states and agree with the reference machine (so a parser that keeps state across positions cannot hide behind its own lifting). Non-trivial = image whose layout is valid (non-overlapping).",
+		Rule:        "code images of 1..2 blocks (at 0x1000 and 0x2000 / directly adjacent / 0x1000 and 2^64-16 / 0x1000 and a block ending exactly at 2^64 / with an empty block before, between or directly behind), each block every sequence of <=3 words from {addi, sw, beq, jal, lr.w(A only), auipc, jalr (linking), 00000000, ffffffff} followed by 0..3 extra bytes (second block 1 word in quick), in both input orders, rv64ima and rv32i: parser.Parse must fail iff the reference walk meets an undecodable or truncated word, else yield the exact tiling with the image bytes, the front end's text/type and effects of equal kinds/keys/widths that are equivalent to the front end's lifting under 8 pre-states and agree with the reference machine (so a parser that keeps state across positions cannot hide behind its own lifting). Non-trivial = image whose layout is valid (non-overlapping).",
 		Assumptions: []string{"blocks are non-empty and built through the real elf.newBlock/newMemory (hook)"},
 		Run: func(r *eng.Run) {
 			words := []uint32{0x00100093, 0x00112023, 0x00208463, 0xffdff06f, 0x1000a1af, 0x00001197, 0x000300e7, 0x00000000, 0xffffffff}
@@ -229,6 +229,10 @@ func init() {
 						// directly adjacent
 						do(c21Case{cfg, []c21Block{{0x1000 + uint64(len(contents[i])/2), s}, {0x1000, contents[i]}}})
 					}
+					// an empty block (a zero-sized segment) before, between and behind: it holds no instruction
+					do(c21Case{cfg, []c21Block{{0x800, ""}, {0x1000, contents[i]}}})
+					do(c21Case{cfg, []c21Block{{0x1000, contents[i]}, {0x1800, ""}, {0x2000, "93001000"}}})
+					do(c21Case{cfg, []c21Block{{0x1000, contents[i]}, {0x1000 + uint64(len(contents[i])/2), ""}}})
 					if cfg.XLEN == 64 {
 						do(c21Case{cfg, []c21Block{{0xfffffffffffffff0, contents[i]}, {0x1000, "93001000"}}})
 						// ... and ending exactly at 2^64
